@@ -33,8 +33,9 @@ ALL = "ALL"
 ROW_BASE = 8
 
 
-def B(price: Any, amount: Any, acct: int = 0, typ: str = "BUY") -> Tuple[Any, ...]:
-    return ("B", price, amount, acct, typ)
+def B(price: Any, amount: Any, acct: int = 0, typ: str = "BUY", fee: Any = 0) -> Tuple[Any, ...]:
+    """fee: crypto fee of the acquisition (only meaningful through the parser, which splits it into an artificial FEE disposal)."""
+    return ("B", price, amount, acct, typ) if not fee else ("B", price, amount, acct, typ, fee)
 
 
 def E(price: Any, amount: Any, typ: str = "INTEREST", acct: int = 0) -> Tuple[Any, ...]:
@@ -69,7 +70,8 @@ def sym_str(sym: Tuple[Any, ...]) -> str:
     if k == "B":
         t = "" if sym[4] == "BUY" else f",{sym[4]}"
         a = "" if sym[3] == 0 else f"@{sym[3]}"
-        return f"B({sym[1]},{sym[2]}{t}){a}"
+        f = f",cryptofee={sym[5]}" if len(sym) > 5 else ""
+        return f"B({sym[1]},{sym[2]}{t}{f}){a}"
     if k == "E":
         t = "" if sym[4] == "INTEREST" else f",{sym[4]}"
         a = "" if sym[3] == 0 else f"@{sym[3]}"
@@ -126,7 +128,7 @@ def materialize(
         kind = sym[0]
         spec: Dict[str, Any]
         if kind in ("B", "E"):
-            _, price, amount, acct, typ = sym
+            _, price, amount, acct, typ = sym[:5]
             a = Fraction(amount) * scale
             ex, ho = ACCOUNTS[acct]
             spec = {
@@ -140,6 +142,9 @@ def materialize(
                 "row": row,
             }
             balance += a
+            if len(sym) > 5:
+                spec["crypto_fee"] = dec(Fraction(sym[5]) * scale)
+                balance -= Fraction(sym[5]) * scale
         elif kind == "S":
             _, price, amount, acct, typ, fee = sym
             f = Fraction(fee) * scale
